@@ -64,6 +64,9 @@ type Unit struct {
 	ifacesSeen     map[string]types.Type
 	typesSeen      map[string]types.Type
 	uncontracted   map[string]*ssa.Function // functions of the module called here that have no contract
+	unspecResult   map[ssa.Value]string   // results of external functions without contract (havocked)
+	baseSet        map[string]bool
+	baseSetDone    bool
 	roMaps         map[string]bool // constants naming read-only map globals
 	snapD          map[string]bool // designators named in at_return() clauses of this unit
 	refute         bool            // second run: loops are explored exactly up to unrollBound, nothing is cut (refutations only)
